@@ -232,6 +232,11 @@ package slip
 // default forms are shared by every later call).
 //@ func slip.(*Lambda).Call
 //@   property C04 C08
+// C04: the body runs only after the second pass over the lambda list has run to
+// its end (that pass binds the default of every &optional / &key parameter the
+// call did not supply, nil for an absent &rest, and the &aux variables).
+//@   after-loop BoundCall rangeindex+1<len(_.Args)#2
+//@   full-loop rangeindex+1<len(_.Args)#2
 //@   no-store slip.DocArg.Default slip.DocArg.Name slip.FuncDoc.Args
 // C08: a variable of the calling scope is looked up before the scope a
 // closure captured when it was built: compiled code caches the Lambda of an
